@@ -102,8 +102,10 @@ def run(tier, mode):
         nb = f'{b}, {phrase}{tail}' if pos == 'end' else (f'{phrase}{tail} {b}' if pos == 'start' else f'{b} ' + 'x' * r.randint(0, 45) + f' {phrase}{tail}')
         D[gi][1][si] = (g, nb)
         text = P.render(r, D, layout)
+        cfg = r.choice(['', 'segment', 'sec_within', 'parse_qq', 'sec_colon_required', 'sec_colon_cautious', 'copy_all'])
+        if cfg == 'sec_colon_required' and r.random() < 0.7:
+            text = text.replace(':', '')     # every section rejected: the chunk is re-run as copy_all -- the warnings must survive
         texts.append(text)
-        cfg = r.choice(['', 'segment', 'sec_within', 'parse_qq'])
         d = H.call(lambda: pytrs.PLSSDesc(text, config=cfg))
         n_or += 1
         dist['triggers'] += 1
